@@ -117,13 +117,16 @@ def gen_leaf(rng, leaves, p_const=0.2):
     return E.S(rng.choice(leaves))
 
 
-def gen_expr(rng, leaves, depth, shared=()):
+def gen_expr(rng, leaves, depth, shared=(), wraps=False):
     if depth <= 0 or rng.random() < 0.12:
         if shared and rng.random() < 0.35:
             return rng.choice(shared)
         return gen_leaf(rng, leaves)
+    if wraps and rng.random() < 0.10:
+        # angle-wrap idiom around a sum of symbols (value-only workloads)
+        return [rng.choice(E.WRAPS), gen_expr(rng, leaves, min(depth - 1, 1), shared)]
     r = rng.random()
-    sub = lambda: gen_expr(rng, leaves, depth - 1, shared)  # noqa: E731
+    sub = lambda: gen_expr(rng, leaves, depth - 1, shared, wraps)  # noqa: E731
     if r < 0.18:
         return ["add", sub(), sub()]
     if r < 0.30:
@@ -171,7 +174,7 @@ def _shuffled_dict(rng, d):
 
 def program(rng, *, n_state=(1, 5), n_control=(0, 3), n_calib=(0, 3), n_sensor=(0, 3),
             n_reading=(1, 4), depth=3, cpp_safe=True, allow_text=True, n_shared=(1, 3),
-            integrator_bias=0.5, dt_names=("dt",), sensor_calib=True, containers=True,
+            integrator_bias=0.5, dt_names=("dt",), sensor_calib=True, containers=True, wraps=False,
             calib_containers=("set", "set", "frozenset", "list", "tuple")):
     """Random model + sensor definition."""
     P = pools()
@@ -190,14 +193,14 @@ def program(rng, *, n_state=(1, 5), n_control=(0, 3), n_calib=(0, 3), n_sensor=(
     shared = []
     for _ in range(rng.randint(*n_shared)):
         for _try in range(20):
-            t = gen_expr(rng, state + control + calib, 2, tuple(shared))
+            t = gen_expr(rng, state + control + calib, 2, tuple(shared), wraps)
             if t[0] not in ("c", "f", "s") and E.symbols(t):
                 shared.append(t)
                 break
     model = {}
     used_shared = 0
     for i, s in enumerate(state):
-        body = gen_expr(rng, proc_leaves, depth, tuple(shared))
+        body = gen_expr(rng, proc_leaves, depth, tuple(shared), wraps)
         if shared and (i < 2 or rng.random() < 0.5):
             body = [rng.choice(["add", "mul", "sub"]), rng.choice(shared), body]
             used_shared += 1
